@@ -43,6 +43,7 @@ class Unit:
     tier: str = 'quick'             # 'quick' | 'thorough'
     trusted: list = field(default_factory=list)   # extra trusted-base notes
     ghost_prefix: str = ''           # ghost declarations put at the start of the extracted body (entry values, spec terms)
+    fallback_unwind: Optional[int] = None  # if the code's loop structure no longer matches the loop contracts: complete unwinding bound (configuration-bounded loops only)
     body_override: Optional[str] = None  # spec-level lemma functions only (no repo code): proof body, usually ''
 
     @property
@@ -69,25 +70,33 @@ def parse_params(proto):
     return out
 
 
-def lowered_body(u, loops=True):
-    """extract + lower + loop contracts.  Returns (c_body, info)."""
+def lowered_body(u, loops=True, tolerant=False):
+    """extract + lower + loop contracts.  Returns (c_body, info).
+    tolerant: the source no longer has the shape the unit was written for
+    (a must-fire rule did not fire / the loops changed): apply whatever rules
+    still match and, if the loop structure differs, leave the loops without
+    contracts (the caller then unwinds them, if the unit allows)."""
     ex = extract.extract_body(u.src, u.anchor, u.occurrence, u.of, u.within)
-    body, fired = lower.apply_rules(ex['body'], u.lower)
+    body, fired = lower.apply_rules(ex['body'], u.lower, tolerant)
     if u.ghost_prefix:
         body = '/* ghost */ ' + u.ghost_prefix.strip() + '\n' + body
     nloops = len(lower.find_loops(body))
+    unwound = False
     if loops and u.kind != 'bounded':
-        body, nloops = lower.insert_loop_contracts(body, u.loops)
-        if nloops != len(u.loops):
-            raise lower.LoweringError(
-                '%s: body has %d loops but %d loop contracts' % (u.name, nloops, len(u.loops)))
-    info = dict(file=ex['file'], line=ex['line'], end_line=ex['end_line'],
+        if tolerant and nloops != len(u.loops):
+            unwound = True
+        else:
+            body, nloops = lower.insert_loop_contracts(body, u.loops)
+            if nloops != len(u.loops):
+                raise lower.LoweringError(
+                    '%s: body has %d loops but %d loop contracts' % (u.name, nloops, len(u.loops)))
+    info = dict(tolerant=tolerant, loops_unwound=unwound, file=ex['file'], line=ex['line'], end_line=ex['end_line'],
                 sha256=ex['sha256'], rules=fired, loops=nloops,
                 cxx_body=ex['body'])
     return body, info
 
 
-def build_tu(u, registry):
+def build_tu(u, registry, tolerant=False):
     """Return (tu_text, info)."""
     parts = ['#include "gv_common.h"\n']
     seen = set()
@@ -113,7 +122,7 @@ def build_tu(u, registry):
         # spec-level lemma function: proof text lives in /verif (usually empty)
         parts.append('%s\n%s\n{\n%s\n}\n' % (u.proto, u.contract.strip(), u.body_override))
     if u.src is not None:
-        body, binfo = lowered_body(u)
+        body, binfo = lowered_body(u, tolerant=tolerant)
         info.update(binfo)
         parts.append('%s\n%s\n{\n%s\n}\n' % (u.proto, u.contract.strip() if u.kind != 'bounded' or u.contract else '', body))
     hname = 'gv_h'
